@@ -131,7 +131,8 @@ NODE_PROPS = {
  "C11": dict(events={"ETimeout", "ETimeoutNowReq", "ETask", "LReplUpdate", "LChangeConfig", "EAppendReq", "LClient"}, tags={"C11"}),
  "C12": dict(events={"ESnapRun", "ESnapTaken", "ETask", "ESnapReq", "ERestart"}, tags={"C12"}),
  "C15": dict(events=None, tags={"C15"}),
- "C16": dict(events={"LTransfer", "LTimeoutNowResult", "LTransferTimeout", "LNewTermTimeout", "ETimeoutNowReq", "LClient", "LReplUpdate", "LChangeConfig"}, tags={"C16"}),
+ "C16": dict(events={"LTransfer", "LTimeoutNowResult", "LTransferTimeout", "LNewTermTimeout", "ETimeoutNowReq", "LClient", "LReplUpdate", "LChangeConfig",
+                     "EVoteReq", "ETimeout", "EVoteResult"}, tags={"C16"}),  # the target's election (transfer flag in its vote requests) is part of the transfer
  "C17": dict(events={"EVoteReq", "LFlrResp", "LFlrSend", "ETimeout", "LReplUpdate"}, tags={"C17"}),
  "C19": dict(events=None, tags={"C19"}),
 }
@@ -141,7 +142,7 @@ def event_kind(desc_case_line):
     return desc_case_line
 
 
-ABS_PROPS = {"C01", "C02", "C03", "C04", "C06"}
+ABS_PROPS = {"C01", "C02", "C03", "C04", "C06", "C09"}
 ABS_CODES = {1: "no projection listed for the event's node", 2: "observed projections differ from the abstract state after the event",
              10: "election started by node 0", 11: "election started by a node that is leader",
              20: "vote granted to candidate 0", 21: "vote granted for an election nobody started", 22: "vote granted although the voter "
@@ -152,7 +153,10 @@ ABS_CODES = {1: "no projection listed for the event's node", 2: "observed projec
              "leader's log (term, prevLogTerm or entries differ)", 50: "append request delivered that no leader sent", 51: "leader handled its own request",
              60: "acknowledgement handled by a non-leader", 61: "acknowledgement handled that no follower gave (term, follower, match index)",
              70: "became leader without a majority of counted votes", 80: "commit index beyond the log", 81: "leader committed an entry of an older term directly",
-             82: "leader advanced the commit index without acknowledgements of a majority of voters", 90: "flushed index beyond the log"}
+             82: "leader advanced the commit index without acknowledgements of a majority of voters", 90: "flushed index beyond the log",
+             95: "node restarted with a commit index it did not have", 100: "leader installed its own snapshot", 101: "snapshot of an older term installed",
+             102: "snapshot from a node that was never elected in that term", 103: "snapshot does not stand for a prefix of its leader's log",
+             104: "snapshot contains entries not acknowledged by a majority (not committed)", 105: "commit index after installation outside [old commit, snapshot index]"}
 
 
 def run_abs(pid, tier, seed, wd):
@@ -278,8 +282,9 @@ def run_node(pid, tier, seed):
            "samples": samples[:4], "distribution": dist, "traces_validated_against_impl": total}
     cov.update(abs_cov)
     if abs_cov:
-        cov["rule"] += ("; abstract tie: %d whole-cluster histories (static membership, no snapshots; %d events) of the real nodes were checked by "
-                        "Abs/Exec.v to be runs of the abstract protocol the safety theorems are proved about" % (abs_cov["abs_histories"], abs_cov["abs_events"]))
+        cov["rule"] += ("; abstract tie: %d whole-cluster histories (%d events) of the real nodes were checked by "
+                        "Abs/Exec.v to be runs of the abstract protocol the safety theorems are proved about (membership is static in these histories; snapshots, "
+                        "compaction and snapshot installation are included)" % (abs_cov["abs_histories"], abs_cov["abs_events"]))
     return {"violations": out, "coverage": cov, "tie_broken": broken}
 
 
@@ -476,7 +481,9 @@ reg_node("C07", "Theorems (node level): non-leaders reject definitively and chan
 reg_node("C09", "Theorems (node level): apply is contiguous; a snapshot never exceeds the commit index; compaction removes only a prefix at or below "
          "the snapshot; on a leader it keeps the entry at every follower's match index and hands replications a view that starts inside the log; "
          "the request writer yields log entries or asks for a snapshot; installation resets log and state machine position together. PARTIAL: the "
-         "instant at which a goroutine touches mapped memory is outside the model (scenario + live driver cover it).", [])
+         "instant at which a goroutine touches mapped memory is outside the model (scenario + live driver cover it). Cluster level: the abstract "
+         "protocol includes snapshot installation (log replaced by a committed prefix or kept; compaction invisible) and its safety theorems "
+         "hold with it; observed histories with snapshots are checked to be runs of it (Props/AbsTie.v).", [], extra_props=["AbsTie.v"])
 reg_node("C12", "Theorems: the snapshot task captures state-machine position and committed configuration at the same instant and publishes exactly "
          "that label, only if newer; the captured configuration is the one in force at the label's index (given the bookkeeping invariant); after "
          "restart the membership is the newest configuration entry above the snapshot, else the label; installation adopts the label.", [])
